@@ -280,7 +280,7 @@ def parse_stmt(sql):
     if m:
         st = Stmt('DELETE', s); st.table = m.group(1); st.where = parse_where(m.group(2)) if m.group(2) else []
         return st
-    m = re.match(r'^INSERT( OR REPLACE| OR IGNORE)? INTO (\w+)\s*\((.*?)\)\s*VALUES\s*\((.*?)\)(?:\s*ON CONFLICT\s*\((.*?)\)\s*DO (NOTHING|UPDATE SET (.*)))?$', s, re.I)
+    m = re.match(r'^INSERT( OR REPLACE| OR IGNORE)? INTO (\w+)\s*\((.*?)\)\s*VALUES\s*\((.*?)\)(?:\s*ON CONFLICT\s*(?:\((.*?)\))?\s*DO (NOTHING|UPDATE SET (.*)))?$', s, re.I)
     if m:
         st = Stmt('INSERT', s); st.table = m.group(2)
         st.cols = [c.strip() for c in m.group(3).split(',')]
@@ -290,8 +290,8 @@ def parse_stmt(sql):
         st.or_clause = m.group(1).strip().upper().replace('OR ', '') if m.group(1) else None
         if m.group(1):
             st.conflict = m.group(1).strip().upper().replace('OR ', '')
-        if m.group(5):
-            tgt = [c.strip() for c in m.group(5).split(',')]
+        if m.group(6):
+            tgt = [c.strip() for c in m.group(5).split(',')] if m.group(5) else []      # no conflict target: ANY uniqueness constraint triggers the DO UPDATE
             sets = {}
             if m.group(7):
                 for a in split_top(m.group(7)):
@@ -366,6 +366,7 @@ def program_guarded(rel, name):
     k = 0
     n = len(body)
     pending_if = None
+    exits = []          # negated conditions of `if g { .. return Ok(..) }` blocks seen so far
     while k < n:
         c = body[k]
         if body.startswith('//', k):
@@ -389,8 +390,27 @@ def program_guarded(rel, name):
                 buf.append(body[j]); j += 1
             lit = re.sub(r'\s+', ' ', ''.join(buf)).strip()
             if lit.upper().startswith(SQL_KW) and (' ' in lit or lit.upper() in ('COMMIT', 'ROLLBACK', 'BEGIN')):
-                out.append((lit, [g for _, g in stack if g]))
+                out.append((lit, [g for _, g in stack if g and g not in ('<closure>', '<scope>')] + [g for _, g in exits]))
             k = j + 1
+            continue
+        # a closure body: a `return` inside a row mapper (`|row| {..}`) leaves only the mapper; an immediately invoked `|| {..}` block is a scope of its own:
+        # a `return Ok` inside it skips the rest of that block
+        mc = re.match(r'\|([^|{};]*)\|\s*(?:->\s*[^{]+)?\{', body[k:]) if c == '|' else None
+        if mc:
+            depth += 1
+            stack.append((depth, '<closure>' if mc.group(1).strip() else '<scope>'))
+            k += mc.end()
+            continue
+        if body.startswith('return', k) and (k == 0 or not (body[k - 1].isalnum() or body[k - 1] == '_')) and re.match(r'return\s+Ok\b', body[k:]):
+            marks = [i_ for i_, (_, g) in enumerate(stack) if g in ('<closure>', '<scope>')]
+            if not marks or stack[marks[-1]][1] == '<scope>':
+                base = marks[-1] + 1 if marks else 0
+                gs = [g for _, g in stack[base:] if g]
+                if len(gs) != 1:
+                    raise SqlError(f'{name}: early `return Ok` under {len(gs)} enclosing conditions is not modelled')
+                g = gs[0]
+                exits.append((stack[marks[-1]][0] if marks else 0, g[1:].strip() if g.startswith('!') else '!' + g))
+            k += 6
             continue
         m = re.match(r'\bif\s+(?!let\b)([^{]+?)\s*\{', body[k:]) if (k == 0 or not (body[k - 1].isalnum() or body[k - 1] == '_')) else None
         if m and body[k:k + 2] == 'if':
@@ -402,6 +422,8 @@ def program_guarded(rel, name):
             depth += 1
         elif c == '}':
             if stack and stack[-1][0] == depth:
+                if stack[-1][1] == '<scope>':
+                    exits[:] = [x for x in exits if x[0] != depth]
                 stack.pop()
             depth -= 1
         k += 1
